@@ -303,12 +303,16 @@ class _Key:
         return bool(self.v < o.v)
 
 
-def h_svd_matrix_roundtrip(ctx, q):
+def h_svd_matrix_roundtrip(ctx, q, layout='C'):
     """full_matrix inverts the index interleaving of svd_matrix (the TT-SVD
     inside is replaced by an exact TT of its argument: assume-guarantee with
     the svd harnesses)."""
     N = 2 ** q
     A = mat(ctx, 'a', N, N)
+    if layout == 'F':
+        A = np.asfortranarray(A)               # e.g. what full_matrix itself returns
+    elif layout == 'T':
+        A = np.ascontiguousarray(A.T).T        # a transposed view
     import sys
     svdmod = sys.modules['teneva.svd']
     real = svdmod.svd
@@ -336,6 +340,13 @@ def h_svd_matrix_roundtrip(ctx, q):
     ctx.claim('mode_size_4', all(G.shape[1] == 4 for G in Y) and len(Y) == q)
     B = teneva.full_matrix(Y)
     ctx.claim('roundtrip', ctx.all_eq(B, A))
+    # the result of full_matrix fed back in (whatever its memory order) converts to the same matrix again
+    svdmod.svd = exact_tt
+    try:
+        Y2 = teneva.svd_matrix(B, 1e-10)
+    finally:
+        svdmod.svd = real
+    ctx.claim('roundtrip_twice', ctx.all_eq(teneva.full_matrix(Y2), A))
 
 
 def instances(tier):
@@ -378,6 +389,8 @@ def instances(tier):
         out.append({'func': 'h_svd_perm4', 'params': {'with_cap': False, 'ordered': False}, 'opts': {'symbolic_signs': False}})
     for q in ([1, 2] if tier == 'quick' else [1, 2, 3]):
         out.append({'func': 'h_svd_matrix_roundtrip', 'params': {'q': q}})
+        for layout in ('F', 'T'):
+            out.append({'func': 'h_svd_matrix_roundtrip', 'params': {'q': q, 'layout': layout}})
     return out
 
 
